@@ -625,7 +625,7 @@ func TestVerifC10Probes(t *testing.T) {
 			if !run.Mine(n) {
 				continue
 			}
-			i, c := i, c
+			i, c, r := i, c, r
 			wg.Add(1)
 			sem <- struct{}{}
 			go func() {
